@@ -177,7 +177,7 @@ def _extract(b: Built):
                 "do": body.def_order,
                 "nx": int(bool(body.nonexclusive)),
                 "sc": int(bool(body.single_caller)),
-                "val": list(st["validate"]) if has_val else None,
+                "val": _flat_pred(st["validate"]) if has_val else None,
                 "comb": st.get("combiner") or "mux",
                 "iw": len(body.data_in.as_value()),
                 "ow": len(body.data_out.as_value()),
@@ -219,6 +219,20 @@ def _extract(b: Built):
         f"ccs={'|'.join(_lst(c) for c in ccl) if ccl else '-'} vo=1 hyp=1 rdl=1"
     )
     b.mbt, b.tbm, b.edges, b.ccs = dict(mbt), dict(tbm), edges, ccl  # type: ignore
+
+
+def _flat_pred(val):
+    """predicate as the model sees it.  A zero-argument method guarded by an input signal g
+    (`validate_arguments=lambda: g` / `lambda: ~g`) is encoded on the Python side only: the valuation handed
+    to the model carries the value of g in the (otherwise constant 0) argument slot of every call site of that
+    method, and the predicate becomes arg != 0 / arg == 0; the method's input width stays 0, so `data_in` is
+    unaffected (see simcore.simulate)."""
+    kind, c = val
+    if kind == "sig":
+        return ["ne", 0]
+    if kind == "nsig":
+        return ["eq", 0]
+    return [kind, c]
 
 
 def _lst(v) -> str:
